@@ -584,3 +584,17 @@ def run(ctx):
             else:
                 r9.violation("%s:MSG_TRUNC" % f.name, "recv without MSG_TRUNC: truncation of an oversized message goes unnoticed", loc=f.loc(c))
     r9.floor(2, "UX kernel calls")
+
+    # ------------------------------------------------------------------ R11
+    # a frame that xcm_send accepted but could only write in part is flushed by later calls - which the application makes
+    # when xcm_fd() tells it to.  That needs the interest set brought up to date after send/receive/finish (C04.R1's engine).
+    from . import C04 as c04
+    r11 = ctx.rule("C01.R11", "an accepted, partly written frame is not stranded: send/receive/finish are followed by the socket's update on every path")
+    c04.check_update_after_ops(P, r11, ops=("xcm_tp_socket_send", "xcm_tp_socket_receive", "xcm_tp_socket_finish"))
+
+    # ------------------------------------------------------------------ R12
+    # "exactly the messages for which xcm_send returned success": a send reported as failed must not be delivered later.
+    # The framing layer keeps the buffered frame when the write below fails, relying on that failure being terminal.
+    from . import C03 as c03
+    r12 = ctx.rule("C01.R12", "a message whose send was reported as failed is never delivered: a lower-layer send failure other than EAGAIN is terminal")
+    c03.check_terminal_failures(P, r12, tables)
